@@ -111,26 +111,33 @@ def run(cx: Cx):
 
     # ------------------------------------------------------------ clause 2: stochastic calls use Model.random
     n_st = 0
+    RNG_METHODS = {'random', 'randint', 'randrange', 'choice', 'choices', 'sample', 'shuffle', 'uniform', 'gauss', 'normalvariate',
+                   'betavariate', 'expovariate', 'triangular', 'getrandbits', 'randbytes', 'lognormvariate', 'vonmisesvariate',
+                   'gammavariate', 'paretovariate', 'weibullvariate', 'binomialvariate'}
     for k, calls in cx.effects.calls.items():
         for c in calls:
             cn = c.data.get('callee_name') or ''
-            if cn.startswith('random.Random.'):
-                n_st += 1
-                recv = c.data.get('recv')
-                fq = k
-                good = isinstance(recv, Attr) and recv.name == 'random'
-                if good:
-                    fn = prog.functions.get(fq)
-                    from sa.walker import _Ctx
-                    bt = _Ctx(cx.walker, fn, WalkOptions()).term_type(recv.base) if fn else None
-                    good = bool(bt and bt[0] == 'inst' and bt[1].qualname == CORE + 'Model')
-                if good:
-                    cx.ok('R-ENTROPY', f"{fq}: {cn.split('.')[-1]} drawn from <model>.random", where=f"{prog.functions[fq].module.relpath}:{c.line}",
-                          function=fq)
-                else:
-                    cx.violation('R-ENTROPY', fq, f"stochastic-call-{cn.split('.')[-1]}-uses-the-models-generator",
-                                 f"{fq} draws from {recv!r}, which is not the model's own generator (Model.random)",
-                                 where=f"{prog.functions[fq].module.relpath}:{c.line}")
+            meth = cn.rsplit('.', 1)[-1]
+            if meth not in RNG_METHODS or c.data.get('target_kind') not in ('ext', 'unknown') or c.data.get('recv') is None:
+                continue
+            if c.data.get('target_kind') == 'ext' and not (cn.startswith('random.') or cn.startswith('numpy.random')):
+                continue        # a resolved non-random library method that happens to share a name
+            n_st += 1
+            recv = c.data.get('recv')
+            fq = k
+            fn = prog.functions.get(fq)
+            good = isinstance(recv, Attr) and recv.name == 'random'
+            if good:
+                from sa.walker import _Ctx
+                bt = _Ctx(cx.walker, fn, WalkOptions()).term_type(recv.base) if fn else None
+                good = bool(bt and bt[0] == 'inst' and bt[1].qualname == CORE + 'Model')
+            where = f"{fn.module.relpath}:{c.line}" if fn else ''
+            if good:
+                cx.ok('R-ENTROPY', f"{fq}: {meth} drawn from <model>.random", where=where, function=fq)
+            else:
+                cx.violation('R-ENTROPY', fq, f"stochastic-call-{meth}-uses-the-models-generator",
+                             f"{fq} draws with .{meth}() from {recv!r}, which is not (always) the model's own generator Model.random: the "
+                             f"draw can come from another generator whose state the seed does not determine", where=where)
     cx.floor('stochastic call sites', n_st, 2)
     rsites = cx.effects.sites_of((CORE + 'Model', 'random'))
     for s in rsites:
